@@ -1,7 +1,8 @@
 import Huginn.Gen.HttpLists
 /-
 Model of huginn-net-http/src/http_process.rs (C09): `TcpFlow` (init on SYN, per-direction segment
-lists, `get_full_data` = stable sort by the raw `u32` sequence number + concatenation),
+lists and initial sequence numbers, `get_full_data` = stable sort by the offset from ISN+1 modulo 2^32 and the
+gap-free, duplicate-free run from the first byte),
 `has_complete_http_data`, `process_tcp_packet` (flow lookup by key / reversed key, when parsing is
 attempted, at-most-once flags, the 64 KiB buffer cap, flow removal under the stored key on
 "both parsed" and on FIN/RST).
@@ -44,6 +45,10 @@ structure TcpFlow where
   serverData : List Seg
   clientParsed : Bool
   serverParsed : Bool
+  /-- sequence number of the SYN that opened the flow -/
+  clientIsn : Nat
+  /-- sequence number of the server's SYN-ACK, once seen -/
+  serverIsn : Option Nat
   deriving DecidableEq, Repr, Inhabited
 
 /-- what the code reads of a TCP/IP packet -/
@@ -78,22 +83,52 @@ def FlowMap.set (m : FlowMap) (k : FlowKey) (v : TcpFlow) : FlowMap := (k, v) ::
 
 /-! ### get_full_data -/
 
+def M32 : Nat := 4294967296
+
+/-- `u32::wrapping_sub` (irreducible: unfolding `+ 2^32` in definitional-equality checks never ends) -/
+@[irreducible] def wsub (a b : Nat) : Nat := (a % M32 + M32 - b % M32) % M32
+/-- `u32::wrapping_add` -/
+@[irreducible] def wadd (a b : Nat) : Nat := (a + b) % M32
+
 /-- insert before the first element with a key ≥ (stable for an element that arrived earlier) -/
-def insertSeg (a : Seg) : List Seg → List Seg
+def insertByKey (key : Seg → Nat) (a : Seg) : List Seg → List Seg
   | [] => [a]
-  | b :: r => if a.seq ≤ b.seq then a :: b :: r else b :: insertSeg a r
+  | b :: r => if key a ≤ key b then a :: b :: r else b :: insertByKey key a r
 
-/-- `sort_by_key(|d| d.sequence)` (stable) on the arrival-ordered vector -/
-def sortSegs : List Seg → List Seg
+/-- `sort_by_key` (stable) on the arrival-ordered vector -/
+def sortByKey (key : Seg → Nat) : List Seg → List Seg
   | [] => []
-  | a :: r => insertSeg a (sortSegs r)
+  | a :: r => insertByKey key a (sortByKey key r)
 
-def concatSegs : List Seg → Bytes
-  | [] => []
-  | s :: r => s.data ++ concatSegs r
+/-- `data.iter().map(|d| d.sequence).min()` -/
+def minSeq : List Seg → Option Nat
+  | [] => none
+  | s :: r => match minSeq r with
+    | none => some s.seq
+    | some m => some (min s.seq m)
+
+/-- sequence number of the first stream byte: ISN + 1, or the lowest sequence number seen when the
+SYN-ACK was not -/
+def baseOf (isn : Option Nat) (segs : List Seg) : Nat :=
+  match isn with
+  | some i => wadd i 1
+  | none => (minSeq segs).getD 0
+
+/-- the gap-free run from offset `next` through segments sorted by offset; bytes already present
+(retransmissions, overlaps) are skipped -/
+def walk (base : Nat) : List Seg → Nat → Bytes
+  | [], _ => []
+  | s :: r, next =>
+    let off := wsub s.seq base
+    if off > next then [] else
+    let have_ := next - off
+    if have_ < s.data.length then s.data.drop have_ ++ walk base r (wadd next (s.data.length - have_))
+    else walk base r next
 
 /-- `TcpFlow::get_full_data` -/
-def fullData (segs : List Seg) : Bytes := concatSegs (sortSegs segs)
+def fullData (isn : Option Nat) (segs : List Seg) : Bytes :=
+  let base := baseOf isn segs
+  walk base (sortByKey (fun s => wsub s.seq base) (segs.filter (fun s => !s.data.isEmpty))) 0
 
 /-! ### parsers (parameters) -/
 
@@ -129,7 +164,7 @@ structure StepOut (ρ σ : Type) where
 def clientBranch {ρ σ} (P : Parsers ρ σ) (flow : TcpFlow) (seg : Seg) : TcpFlow × Option ρ :=
   if flow.clientParsed then (flow, none) else
   let data := flow.clientData ++ [seg]
-  let full := fullData data
+  let full := fullData (some flow.clientIsn) data
   if full.length > maxBufferedHeadBytes then
     ({ flow with clientData := [], clientParsed := true }, none)
   else if hasCompleteHttpData P full then
@@ -141,7 +176,7 @@ def clientBranch {ρ σ} (P : Parsers ρ σ) (flow : TcpFlow) (seg : Seg) : TcpF
 def serverBranch {ρ σ} (P : Parsers ρ σ) (flow : TcpFlow) (seg : Seg) : TcpFlow × Option σ :=
   if flow.serverParsed then (flow, none) else
   let data := flow.serverData ++ [seg]
-  let full := fullData data
+  let full := fullData flow.serverIsn data
   if full.length > maxBufferedHeadBytes then
     ({ flow with serverData := [], serverParsed := true }, none)
   else if hasCompleteHttpData P full then
@@ -167,11 +202,16 @@ def dispatch {ρ σ} (P : Parsers ρ σ) (flow : TcpFlow) (isClient : Bool) (p :
     let x := serverBranch P flow seg; (x.1, none, x.2)
   else (flow, none, none)
 
+/-- the server's SYN-ACK gives its initial sequence number -/
+def noteSynAck (flow : TcpFlow) (isClient : Bool) (p : Pkt) : TcpFlow :=
+  if hasFlag p.flags SYN && !isClient && flow.serverIsn.isNone then { flow with serverIsn := some p.seq } else flow
+
 /-- a packet of a known flow -/
 def stepFound {ρ σ} (P : Parsers ρ σ) (m : FlowMap) (p : Pkt) (flow : TcpFlow) (isClient : Bool) : StepOut ρ σ :=
   let stored := if isClient then p.key else p.key.rev
-  if p.payload.isEmpty then { map := m } else
-  let x := dispatch P flow isClient p
+  let flow1 := noteSynAck flow isClient p
+  if p.payload.isEmpty then { map := m.set stored flow1, stored := some stored } else
+  let x := dispatch P flow1 isClient p
   let m' := m.set stored x.1
   if x.1.clientParsed && x.1.serverParsed then
     { map := m'.erase stored, request := x.2.1, response := x.2.2, stored := some stored }
@@ -184,7 +224,8 @@ def stepNew {ρ σ} (m : FlowMap) (p : Pkt) : StepOut ρ σ :=
   if hasFlag p.flags SYN then
     let flow : TcpFlow :=
       { clientIp := p.srcIp, serverIp := p.dstIp, clientPort := p.srcPort, serverPort := p.dstPort,
-        clientData := [⟨p.seq, p.payload⟩], serverData := [], clientParsed := false, serverParsed := false }
+        clientData := [⟨wadd p.seq 1, p.payload⟩], serverData := [], clientParsed := false, serverParsed := false,
+        clientIsn := p.seq, serverIsn := none }
     { map := m.set p.key flow, stored := some p.key, opened := true }
   else { map := m }
 
